@@ -39,6 +39,9 @@ type View struct {
 	Doc    []int `json:"doc"`
 	Uc     int   `json:"uc"`
 	Rc     int   `json:"rc"`
+	// Ao: anchor origin token (0: the create's, p: that of recover shape p, -1: no DID, -9: unknown); compared only when
+	// both sides carry it
+	Ao *int `json:"ao,omitempty"`
 }
 
 func (v View) String() string {
@@ -58,7 +61,29 @@ func (v View) Equal(w View) bool {
 			return false
 		}
 	}
+	if v.Ao != nil && w.Ao != nil && *v.Ao != *w.Ao {
+		return false
+	}
 	return true
+}
+
+// AoToken abstracts a resolved anchor origin.
+func AoToken(rm *protocol.ResolutionModel, err error) *int {
+	t := -9
+	switch {
+	case err != nil || rm == nil:
+		t = -1
+	case rm.AnchorOrigin == nil:
+		t = 0
+	default:
+		if s, ok := rm.AnchorOrigin.(string); ok {
+			var n int
+			if _, e := fmt.Sscanf(s, "https://origin-%d.example.com", &n); e == nil {
+				t = n
+			}
+		}
+	}
+	return &t
 }
 
 // Engine replays specification stores through the real OperationProcessor with real keys and signatures.
@@ -91,6 +116,7 @@ func NewEngine(alpha []concr.Shape, keyType concr.KeyType, hash uint) (*Engine, 
 	if err != nil {
 		return nil, err
 	}
+	b.OriginPerShape = true
 	e := &Engine{Keys: keys, Alpha: alpha, Suffix: b.Suffix, Params: wire.Params(hash)}
 	e.PC = &wire.Client{Versions: []protocol.Version{wire.NewResolutionVersion(e.Params)}}
 	for _, sh := range alpha {
@@ -165,7 +191,7 @@ func (e *Engine) Resolve(ops []AnchOp, opts ...document.ResolutionOption) (View,
 // ResolveSplit is Resolve with some operations handed over through the AdditionalOperations resolution option
 // instead of the stores (extra[i] = true); published operations may in addition stay in the store (dup), in which
 // case the processor must recognise them by their canonical reference.
-func (e *Engine) ResolveSplit(ops []AnchOp, extra []bool, dup bool) (View, *protocol.ResolutionModel, error) {
+func (e *Engine) ResolveSplit(ops []AnchOp, extra []bool, dup bool, opts ...document.ResolutionOption) (View, *protocol.ResolutionModel, error) {
 	pub := &wire.SliceStore{}
 	unpub := &wire.SliceStore{}
 	var additional []*operation.AnchoredOperation
@@ -184,16 +210,16 @@ func (e *Engine) ResolveSplit(ops []AnchOp, extra []bool, dup bool) (View, *prot
 		}
 	}
 	p := processor.New("verif", pub, e.PC, processor.WithUnpublishedOperationStore(unpub))
-	rm, err := p.Resolve(e.Suffix, document.WithAdditionalOperations(additional))
+	rm, err := p.Resolve(e.Suffix, append([]document.ResolutionOption{document.WithAdditionalOperations(additional)}, opts...)...)
 	return e.Alpha_(rm, err), rm, err
 }
 
 // Alpha_ abstracts a real resolution result.
 func (e *Engine) Alpha_(rm *protocol.ResolutionModel, err error) View {
 	if err != nil || rm == nil {
-		return View{Doc: []int{}}
+		return View{Doc: []int{}, Ao: AoToken(rm, err)}
 	}
-	v := View{Exists: true, Deact: rm.Deactivated, Doc: DocTokens(rm.Doc), Uc: e.Keys.Abs(rm.UpdateCommitment), Rc: e.Keys.Abs(rm.RecoveryCommitment)}
+	v := View{Exists: true, Ao: AoToken(rm, err), Deact: rm.Deactivated, Doc: DocTokens(rm.Doc), Uc: e.Keys.Abs(rm.UpdateCommitment), Rc: e.Keys.Abs(rm.RecoveryCommitment)}
 	return v
 }
 
@@ -310,6 +336,7 @@ type ResCase struct {
 	Res   View            `json:"res"`
 	Legit []AnchOp        `json:"legit"`
 	Na    int             `json:"na"`
+	Ao    *int            `json:"ao"`
 	Log   json.RawMessage `json:"log"`
 }
 
